@@ -59,7 +59,7 @@ Fixpoint chain_wf (s : cstate) (xs : list cstep) : Prop :=
 (** MakeGenesisState + the genesis block [gb] written by Genesis.Commit *)
 Definition genesis_ok (g : cstate) (gb : block) : Prop :=
   last_height g = 0 /\ k_height gb = 0 /\ last_vals g = None /\ last_bid g = bid_zero /\
-  initial_height g <> 0 /\ k_time gb = last_time g /\ k_app gb = app_hash g /\
+  initial_height g <> 0 /\ k_time gb = last_time g /\ app_hash g = 0 /\
   wfset (vals g) /\ wfset (next_vals g).
 
 Section Chain.
@@ -141,12 +141,12 @@ Record inv (p0 : N) (d : db) (s : cstate) (ss : list cstate) : Prop := {
   i_head : d_head d = Some (last_height s);
   i_meta : exists m, get (last_height s) (d_bm d) = Some m /\ m_height m = last_height s /\
                      (0 < last_height s -> m_bid m = last_bid s) /\ m_time m = last_time s;
-  i_app : get (last_height s) (d_ah d) = Some (app_hash s);
+  i_app : 0 < last_height s -> get (last_height s) (d_ah d) = Some (app_hash s);
   i_next : get (valset_key (next_vals s)) (d_vi d) =
            Some {| vi_set := Some (next_vals s); vi_lhc := lhvc s |};
   i_par : get (PK (params s) (lhcpc s)) (d_pi d) = Some {| pi_params := params s; pi_lhc := lhcpc s |};
   i_wf : wfset (vals s) /\ wfset (next_vals s) /\ initial_height s <> 0 /\
-         (last_height s = 0 -> last_bid s = bid_zero /\ last_vals s = None);
+         (last_height s = 0 -> last_bid s = bid_zero /\ last_vals s = None /\ app_hash s = 0);
   i_in : In s ss;
   i_le : forall si, In si ss -> last_height si <= last_height s;
   i_all : forall si, In si ss -> saved_ok p0 d si;
@@ -166,7 +166,7 @@ Proof.
   constructor; cbn [d_head d_bm d_ah d_vi d_pi d_cs write_block empty_db].
   - now rewrite Hb, Hh.
   - rewrite Hh, Hb. eexists. rewrite get_put_eq. split; [reflexivity|]. cbn. repeat split; auto. lia.
-  - now rewrite Hh, Hb, get_put_eq, Ha.
+  - rewrite Hh. lia.
   - now rewrite get_put_eq.
   - now rewrite get_put_eq.
   - repeat split; auto.
@@ -198,7 +198,7 @@ Proof.
   constructor; cbn [d_head d_bm d_ah d_vi d_pi d_cs write_block].
   - now rewrite Hh, Hk.
   - rewrite Hh, <- Hk. eexists. rewrite get_put_eq. split; [reflexivity|]. cbn. repeat split; auto.
-  - rewrite Hh, <- Hk, get_put_eq. reflexivity.
+  - intros _. rewrite Hh, <- Hk, get_put_eq. reflexivity.
   - replace (next_vals s') with (c_next x) by reflexivity. now rewrite get_put_eq.
   - now rewrite get_put_eq.
   - split; [exact Wnx|]. split; [exact Wn|]. split; [exact Hih|]. intros Hc. lia.
@@ -279,7 +279,7 @@ Lemma load_of_inv p0 d s ss : inv p0 d s ss -> exists l, load d = LOk l /\ resto
 Proof.
   intros [Ihead (m & Gm & Hmh & Hmb & Hmt) Iapp Inext Ipar (Wv & Wn & Hih & Hz) Iin Ile Iall Ipall].
   destruct (Iall s Iin) as (Hc & Hv & Hn & Hl & _ & _).
-  unfold load. rewrite Ihead. unfold load_at. rewrite Hc, Gm, Iapp.
+  unfold load. rewrite Ihead. unfold load_at. rewrite Hc, Gm.
   cbn [rec_of r_ih r_last r_vals r_next r_params r_chain].
   destruct (read_has d _ Hv) as (cv & lc & Rv & Kv & Wcv). rewrite Rv.
   assert (Rn : read_set d (valset_key (next_vals s)) = inr (next_vals s, lhvc s)).
@@ -290,13 +290,13 @@ Proof.
   rewrite Eih, Hmh.
   destruct (N.ltb_spec 0 (last_height s)) as [Hpos|Hzero].
   - destruct (Hl Hpos) as (X & HX & WX & HhX).
-    rewrite HX. cbn [Model.okey].
+    rewrite (Iapp Hpos). rewrite HX. cbn [Model.okey].
     destruct (read_has d _ HhX) as (lv & ll & Rl & Kl & Wlv). rewrite Rl.
     eexists. split; [reflexivity|]. unfold restored. cbn.
     repeat split; auto.
     + apply key_eq_keylist; auto.
     + rewrite HX. apply key_eq_keylist; auto.
-  - assert (E0 : last_height s = 0) by lia. destruct (Hz E0) as (Hb0 & Hl0).
+  - assert (E0 : last_height s = 0) by lia. destruct (Hz E0) as (Hb0 & Hl0 & Ha0).
     eexists. split; [reflexivity|]. unfold restored. cbn.
     repeat split; auto.
     + apply key_eq_keylist; auto.
